@@ -796,6 +796,13 @@ func c15Invite(c *mon.Ctx, r *gen.Rand, sc *simScenario, b *simBranch) {
 		if supplied && r.Chance(0.5) {
 			oddState = `{"type":"m.room.name","state_key":"","sender":"` + inviter + `","content":{"name":"lobby","order":` + gen.Pick(r, []string{"1.5", "1e2", "9007199254740992", "1E400"}) + `}}`
 		}
+		// ... or text no parser of events accepts in any room version: a member twice, a byte that is not UTF-8 (ninth
+		// audit round, fed #1). Refused, or left out, or tidied up - what comes back has to be an event
+		oddText := false
+		if supplied && oddState == "" && r.Chance(0.4) {
+			oddText = true
+			oddState = `{"type":"m.room.name","state_key":"","sender":"` + inviter + `","content":` + gen.Pick(r, []string{`{"name":"x","name":"y"}`, `{"a":{"b":1,"b":1}}`, "{\"name\":\"\xff\"}", `{"name":"\ud800"}`}) + `}`
+		}
 		name := "invite:" + vecName(names, vec)
 		c.Case(name, map[string]any{"version": s.ver, "guards": vecName(names, vec), "known_room": known, "current_membership": membership, "stripped_state_supplied": supplied, "odd_stripped_state": oddState, "junk_entry_under_local_key": junk, "signature_fault": sigFault}, func() {
 			q := &c15querier{state: b.state, membership: membership, known: known}
@@ -815,7 +822,15 @@ func c15Invite(c *mon.Ctx, r *gen.Rand, sc *simScenario, b *simBranch) {
 			// (a stripped state the room version's canonical-JSON rule refuses cannot be put into an event of that version:
 			// such an invite is refused as a whole)
 			stateFits := !(supplied && oddState != "" && s.t.EnforceCanon)
-			c15verdict(c, "invite", name, allTrue(vec) && stateFits, err == nil, vecName(names, vec), s.ver)
+			if oddText {
+				c.Count("invites_with_a_stripped_state_that_is_no_event_text")
+				if err == nil && !allTrue(vec) {
+					c15verdict(c, "invite", name, false, true, vecName(names, vec), s.ver)
+				}
+				stateFits = false // an error is fine; an answer is looked at below
+			} else {
+				c15verdict(c, "invite", name, allTrue(vec) && stateFits, err == nil, vecName(names, vec), s.ver)
+			}
 			if err != nil && stateFits {
 				// a refused invite is not countersigned: the event the caller handed in carries no signature of the local
 				// server that it did not carry before
@@ -868,7 +883,8 @@ func c15Invite(c *mon.Ctx, r *gen.Rand, sc *simScenario, b *simBranch) {
 			// what the handler returns is an event like any other: the untrusted parser takes it, and signing it once
 			// more does not crash
 			if _, perr := s.impl.NewEventFromUntrustedJSON(out.JSON()); perr != nil {
-				c.Failf("invite:returned-event-refused-by-the-parser", "v%s: the event HandleInvite returns (stripped state %s) is refused by NewEventFromUntrustedJSON: %v", s.ver, oddState, perr)
+				c.Failf("invite:returned-event-refused-by-the-parser", "v%s: the event HandleInvite returns (stripped state %q) is refused by NewEventFromUntrustedJSON: %v", s.ver, oddState, perr)
+				return
 			}
 			if site, msg, pan := mon.Guard(func() { _ = out.Sign("third.example", gmsl.KeyID(inviteeID.KeyID), inviteeID.Priv).JSON() }); pan {
 				c.Failf("invite:returned-event-cannot-be-signed:"+site, "v%s: Sign on the event HandleInvite returns (stripped state %s) panics: %s", s.ver, oddState, msg)
